@@ -15,13 +15,15 @@
   * `becomeFollower`             raft.rs `BecomeFollower`: `become_follower()?` then `reset_voted_for`
                                  (a follower returns `InvalidTransition` before the reset)
   * `startElection` / `tally`    candidate_state.rs `tick`, election_handler.rs `broadcast_vote_requests`
-  * `becomeLeader`               raft.rs `BecomeLeader` (`update_voted_for` committed, `init_peers_next_index_and_
+  * `stepVoteEnd` (won)          raft.rs `BecomeLeader` (`update_voted_for` committed, `init_peers_next_index_and_
                                  match_index`: next = last+1, match 0) + leader_state.rs `initiate_noop_commit`
   * `buildAppendRequest`         replication/replication_handler.rs `retrieve_to_be_synced_logs_for_peers` (cap) +
                                  `build_append_request` (prev = next-1, contiguous run only — fix F6)
   * `replicate`                  `prepare_batch_requests` (+ `generate_new_entries`: leader appends at last+1) and
                                  leader_state.rs `execute_and_process_raft_rpc` phase 5 (speculative next_index,
-                                 per-follower worker: a task received while the stream is broken is dropped)
+                                 per-follower worker `run_replication_worker`: a task received while the stream is
+                                 broken is dropped; a send into a torn-down stream fails, is lost, and raises
+                                 PeerStreamError = next := match+1; either way the worker reconnects)
   * `checkAppendLegal`           replication_handler.rs `check_append_entries_request_is_legal` (virtual log rule)
   * `acceptEntries`              storage/buffered_raft_log.rs `filter_out_conflicts_and_append` (reset / prev
                                  mismatch / fast path `overlap_safe` / slow path)
@@ -37,7 +39,8 @@
                                  `handle_success_response`, `handle_conflict_response`
   * `onStreamError`              raft_role/mod.rs `handle_peer_stream_error` (next := match+1)
   * `onLogFlushed`               leader_state.rs `handle_log_flushed` (multi-voter branch)
-  * `crash` / `stop` / `start`   raft.rs `Drop for Raft` (the ONLY place the hard state is saved),
+  * `crash` / `stop` / `start`   raft_role/mod.rs `SharedState::persist_hard_state_if_changed` (term and vote reach the
+                                 meta store at every change — fix F2 — so a crash keeps them), raft.rs `Drop for Raft`,
                                  d-engine-server node/builder.rs (`FollowerState::new` from `load_hard_state`),
                                  buffered_raft_log.rs `new` (reload 1..=last_index), `SharedState::new` (term 1)
 -/
@@ -112,7 +115,7 @@ deriving DecidableEq, Repr
 inductive Role | follower | candidate | leader
 deriving DecidableEq, Repr
 
-inductive StreamSt | closed | opened | broken
+inductive StreamSt | closed | opened | broken | dead
 deriving DecidableEq, Repr
 
 /-- The leader's view of one peer: `next_index`, `match_index` (0 = absent from the map), replication stream. -/
@@ -157,7 +160,9 @@ structure Node where
   election : Option Election := none
   durable : Nat := 0                              -- mirror of `durable_index` (only for `lf`)
   floor : Nat := 0                                -- store: highest index certainly written
-  hard : Option (Nat × Option Vote) := none       -- meta store content (written by `Drop for Raft` only)
+  hard : Option (Nat × Option Vote) := none       -- meta store content: (term, vote), saved at every change (fix F2)
+  pendingWrites : List (Nat × Nat) := []          -- leader: (log index, client tag) waiting for commit (`pending_client_writes`)
+  pendingApply : List (Nat × Nat) := []           -- leader: committed, waiting for ApplyCompleted (`pending_write_apply`)
 deriving Repr
 
 def Node.blocked (n : Node) : Bool := n.election.isSome
@@ -186,24 +191,28 @@ deriving Repr
 -- ---------------------------------------------------------------------------------------- role changes
 /-- raft.rs `BecomeFollower`: a follower fails `become_follower()?` before the vote reset. -/
 def becomeFollower (n : Node) : Node :=
-  if n.role == .follower then n else { n with role := .follower, vote := none, peers := [] }
+  if n.role == .follower then n
+  else { n with role := .follower, vote := none, peers := [], pendingWrites := [], pendingApply := [] }
 
 -- ---------------------------------------------------------------------------------------- election
 def lastPair (l : Log) : Nat × Nat := (lastLogId l).getD (0, 0)
 
+/-- the grant decision of `handle_vote_request` -/
+def voteDecision (n : Node) (r : VoteReq) : Bool × String :=
+  let lp := lastPair n.log
+  let voted := if r.term > n.term then none else n.vote
+  if r.term < n.term then (false, "vote:stale-term")
+  else if !(moreRecent lp.1 lp.2 r.lastIdx r.lastTerm) then (false, "vote:log-behind")
+  else match voted with
+    | some v => if v.term == r.term && v.id == r.cand then (true, "vote:regrant") else (false, "vote:already-voted")
+    | none => (true, "vote:grant")
+
 def handleVoteRequest (n : Node) (r : VoteReq) : Node × VoteResp × String :=
-  let myTerm := n.term
-  let (li, lt) := lastPair n.log
-  let voted := if r.term > myTerm then none else n.vote
-  let (grant, tag) :=
-    if r.term < myTerm then (false, "vote:stale-term")
-    else if !(moreRecent li lt r.lastIdx r.lastTerm) then (false, "vote:log-behind")
-    else match voted with
-      | some v => if v.term == r.term && v.id == r.cand then (true, "vote:regrant") else (false, "vote:already-voted")
-      | none => (true, "vote:grant")
-  let n1 := if r.term > myTerm then { n with term := r.term } else n
-  let n2 := if grant then { n1 with vote := some ⟨r.cand, r.term, false⟩ } else n1
-  (n2, ⟨myTerm, grant, li, lt⟩, tag)
+  let d := voteDecision n r
+  let lp := lastPair n.log
+  ({ n with term := if r.term > n.term then r.term else n.term,
+            vote := if d.1 then some ⟨r.cand, r.term, false⟩ else n.vote },
+   ⟨n.term, d.1, lp.1, lp.2⟩, d.2)
 
 def couldGrant (r : VoteReq) (v : Vote) : Bool := v.id == 0 || v.term < r.term
 
@@ -265,11 +274,13 @@ def buildAppendRequest (me : NodeId) (log : Log) (term commit lastBefore cap : N
   { term := term, leader := me, prevI := prevI, prevT := prevT,
     entries := contiguousFrom (prevI + 1) (legacy ++ newEs), commit := commit }
 
-def mkEntries (start term : Nat) : List Nat → Log
-  | [] => []
-  | p :: ps => ⟨start, term, p⟩ :: mkEntries (start + 1) term ps
+/-- the entry a leader creates in this round (`generate_new_entries`: index = last+1, current term) -/
+def newEntries (n : Node) (payload : Option Nat) : Log :=
+  match payload with
+  | some p => [⟨lastIndex n.log + 1, n.term, p⟩]
+  | none => []
 
-/-- One replication round of a leader: append `payloads` at last+1, build one request per peer, advance
+/-- One replication round of a leader: append the new entry (if any) at last+1, build one request per peer, advance
     `next_index` speculatively, hand the request to the peer's worker.  Returns the messages put on the wire. -/
 def replicatePeers (me : NodeId) (log : Log) (term commit lastBefore cap : Nat) (newEs : Log) :
     List Peer → Nat → List Peer × List Msg × Nat
@@ -282,12 +293,13 @@ def replicatePeers (me : NodeId) (log : Log) (term commit lastBefore cap : Nat) 
       | .opened => ({ p with next := nx }, [Msg.ae me p.id p.sid req true], sid)
       | .closed => ({ p with next := nx, st := .opened, sid := sid }, [Msg.ae me p.id sid req true], sid + 1)
       | .broken => ({ p with next := nx, st := .opened, sid := sid }, [], sid + 1)
+      | .dead => ({ p with next := p.mtch + 1, st := .opened, sid := sid }, [], sid + 1)
     let (ps', outs, sid'') := replicatePeers me log term commit lastBefore cap newEs ps sid'
     (p' :: ps', out ++ outs, sid'')
 
-def replicate (me : NodeId) (n : Node) (payloads : List Nat) (cap sid : Nat) : Node × List Msg × Nat :=
+def replicate (me : NodeId) (n : Node) (payload : Option Nat) (cap sid : Nat) : Node × List Msg × Nat :=
   let lastBefore := lastIndex n.log
-  let newEs := mkEntries (lastBefore + 1) n.term payloads
+  let newEs := newEntries n payload
   let log := n.log ++ newEs
   let (ps, out, sid') := replicatePeers me log n.term n.commit lastBefore cap newEs n.peers sid
   ({ n with log := log, peers := ps }, out, sid')
@@ -295,23 +307,30 @@ def replicate (me : NodeId) (n : Node) (payloads : List Nat) (cap sid : Nat) : N
 def initPeers (me n last : Nat) : List Peer :=
   ((List.range (n + 1)).filter (fun i => i != 0 && i != me)).map fun i => ⟨i, last + 1, 0, .closed, 0⟩
 
-/-- raft.rs `BecomeLeader` followed by the noop round. -/
-def becomeLeader (me nNodes : Nat) (n : Node) (cap sid : Nat) : Node × List Msg × Nat :=
-  let n1 := { n with role := .leader, vote := some ⟨me, n.term, true⟩, peers := initPeers me nNodes (lastIndex n.log) }
-  replicate me n1 [0] cap sid
+/-- insertion into a descending list (structural, so that kernel evaluation of witnesses reduces) -/
+def insertDesc (x : Nat) : List Nat → List Nat
+  | [] => [x]
+  | y :: ys => if x ≥ y then x :: y :: ys else y :: insertDesc x ys
+
+/-- `sort_unstable_by(|a, b| b.cmp(a))` -/
+def sortDesc : List Nat → List Nat
+  | [] => []
+  | x :: xs => insertDesc x (sortDesc xs)
 
 /-- `calculate_new_commit_index`: element len/2 of the descending list (own last ∪ every voter's match index). -/
 def leaderCommit (n : Node) : Option Nat :=
   let ids := (n.peers.map (·.mtch)) ++ [lastIndex n.log]
-  let sorted := ids.mergeSort (fun a b => a ≥ b)
+  let sorted := sortDesc ids
   let maj := sorted.getD (sorted.length / 2) 0
   if maj < n.commit then none
   else if entryTerm n.log maj == some n.term then (if maj > n.commit then some maj else none)
   else none
 
+/-- commit advance + `drain_pending_client_writes` (client writes wait for the apply: `wait_for_apply_event`) -/
 def applyLeaderCommit (n : Node) : Node × String :=
   match leaderCommit n with
-  | some c => ({ n with commit := c }, "commit:advance")
+  | some c => ({ n with commit := c, pendingWrites := n.pendingWrites.filter (fun w => w.1 > c),
+                        pendingApply := n.pendingApply ++ n.pendingWrites.filter (fun w => w.1 ≤ c) }, "commit:advance")
   | none => (n, "commit:none")
 
 -- ---------------------------------------------------------------------------------------- follower side
@@ -324,31 +343,50 @@ def checkAppendLegal (myTerm : Nat) (l : Log) (r : AeReq) : AeResult :=
       else .conflict (some t) (some ((firstIndexForTerm l t).getD (r.prevI - 1)))
     | none => .conflict none (some (lastIndex l + 1))
 
-/-- Follower workflow.  `snapTerm`/`snapCommit` = the state snapshot taken on entry (before the term update). -/
-def followerAppend (n : Node) (r : AeReq) : Node × Nat × AeResult × String :=
-  let snapTerm := n.term
-  let snapCommit := n.commit
-  if snapTerm > r.term then (n, snapTerm, .higher snapTerm, "ae:stale-term")
+/-- heartbeat (no entries): nothing changes, the ack carries the follower's whole last log id;
+    otherwise `filter_out_conflicts_and_append`. -/
+def acceptOrKeep (log : Log) (r : AeReq) : Log × Option (Nat × Nat) × Option AcceptPath :=
+  if r.entries.isEmpty then (log, lastLogId log, none)
   else
-    let n1 := { n with vote := some ⟨r.leader, r.term, true⟩, term := if snapTerm < r.term then r.term else snapTerm }
-    match checkAppendLegal snapTerm n1.log r with
-    | .conflict t i => (n1, snapTerm, .conflict t i, "ae:conflict")
-    | .higher t => (n1, snapTerm, .higher t, "ae:higher")
+    let a := acceptEntries log r.prevI r.prevT r.entries
+    (a.1, a.2.1, some a.2.2)
+
+/-- index of the first diverging entry in the slow path (`diverge_index`) -/
+def divergeIndex (log es : Log) : Nat :=
+  match (es.drop ((es.findIdx? (fun e => e.index > lastIndex log || entryTerm log e.index != some e.term)).getD 0)).head? with
+  | some e => e.index
+  | none => 0
+
+/-- mirror of `durable_index` (reset: 0; conflict truncation: `fetch_min(diverge-1)`) -/
+def durableAfter (n : Node) (path : Option AcceptPath) (r : AeReq) : Nat :=
+  match path with
+  | some .reset => 0
+  | some .slowConflict => min n.durable (divergeIndex n.log r.entries - 1)
+  | _ => n.durable
+
+/-- store: highest index certainly written (reset and replace are awaited by the follower before it answers) -/
+def floorAfter (n : Node) (path : Option AcceptPath) (log' : Log) : Nat :=
+  match path with
+  | some .reset => 0
+  | some .slowConflict => lastIndex log'
+  | _ => n.floor
+
+/-- Follower workflow.  The response term and the commit comparison use the state snapshot taken on entry
+    (`n.term`, `n.commit` — before the term update). -/
+def followerAppend (n : Node) (r : AeReq) : Node × Nat × AeResult × String :=
+  if n.term > r.term then (n, n.term, .higher n.term, "ae:stale-term")
+  else
+    let vote' := some (Vote.mk r.leader r.term true)
+    let term' := if n.term < r.term then r.term else n.term
+    match checkAppendLegal n.term n.log r with
+    | .conflict t i => ({ n with vote := vote', term := term' }, n.term, .conflict t i, "ae:conflict")
+    | .higher t => ({ n with vote := vote', term := term' }, n.term, .higher t, "ae:higher")
     | .success _ =>
-      let (log', lastMatch, path) :=
-        if r.entries.isEmpty then (n1.log, lastLogId n1.log, none)
-        else let (a, b, c) := acceptEntries n1.log r.prevI r.prevT r.entries; (a, b, some c)
-      let commit' := if r.commit > snapCommit then min r.commit (lastIndex log') else n1.commit
-      let durable' := match path with
-        | some .reset => 0
-        | some .slowConflict => min n1.durable ((match (r.entries.drop ((r.entries.findIdx? (fun e => e.index > lastIndex n1.log || entryTerm n1.log e.index != some e.term)).getD 0)).head? with | some e => e.index | none => 0) - 1)
-        | _ => n1.durable
-      let floor' := match path with
-        | some .reset => 0
-        | some .slowConflict => lastIndex log'
-        | _ => n1.floor
-      ({ n1 with log := log', commit := commit', durable := durable', floor := floor' }, snapTerm, .success lastMatch,
-        match path with | some p => p.tag | none => "ae:heartbeat")
+      let a := acceptOrKeep n.log r
+      ({ n with vote := vote', term := term', log := a.1,
+                commit := if r.commit > n.commit then min r.commit (lastIndex a.1) else n.commit,
+                durable := durableAfter n a.2.2 r, floor := floorAfter n a.2.2 a.1 },
+       n.term, .success a.2.1, match a.2.2 with | some p => p.tag | none => "ae:heartbeat")
 
 def onAppendEntries (n : Node) (r : AeReq) : Node × Nat × AeResult × String :=
   match n.role with
@@ -414,6 +452,8 @@ structure Cluster where
   nextSid : Nat := 1
   ghost : List GRec := []               -- entries ever created by a leader
   leaderTerms : List (Nat × NodeId) := []  -- (term, node) of every `BecomeLeader`, newest first
+  commits : List (Nat × Log) := []         -- (leader term, committed prefix) whenever a leader's commit index advanced
+  acked : List (Entry × Nat) := []         -- client writes answered with success: (entry, leader term), oldest first
 
 def Cluster.init (n cap : Nat) : Cluster :=
   { n := n, cap := cap, nodes := fun _ => {}, msgs := [] }
@@ -422,17 +462,21 @@ def setNode (f : NodeId → Node) (i : NodeId) (x : Node) : NodeId → Node := f
 
 def Cluster.valid (c : Cluster) (i : NodeId) : Bool := 1 ≤ i && i ≤ c.n
 
+def number (start : Nat) : List Msg → List (Nat × Msg)
+  | [] => []
+  | m :: ms => (start, m) :: number (start + 1) ms
+
 def addMsgs (c : Cluster) (ms : List Msg) : Cluster :=
-  ms.foldl (fun c m => { c with msgs := c.msgs ++ [(c.nextMsg, m)], nextMsg := c.nextMsg + 1 }) c
+  { c with msgs := c.msgs ++ number c.nextMsg ms, nextMsg := c.nextMsg + ms.length }
 
 def findMsg (c : Cluster) (id : Nat) : Option Msg := (c.msgs.find? (fun x => x.1 == id)).map (·.2)
 def removeMsg (c : Cluster) (id : Nat) : Cluster := { c with msgs := c.msgs.filter (fun x => x.1 != id) }
 
-/-- ghost records for the entries a leader just created -/
-def ghostOf (logBefore : Log) (newEs : Log) : List GRec :=
-  match newEs with
-  | [] => []
-  | e :: es => ⟨e.index, e.term, e.payload, lastTermOf logBefore⟩ :: ghostOf (logBefore ++ [e]) es
+/-- ghost record for the entry a leader creates in this round -/
+def ghostNew (n : Node) (payload : Option Nat) : List GRec :=
+  match payload with
+  | some p => [⟨lastIndex n.log + 1, n.term, p, lastTermOf n.log⟩]
+  | none => []
 
 inductive Event
   | tick (n : NodeId)
@@ -445,6 +489,7 @@ inductive Event
   | drop (m : Nat)
   | dup (m : Nat)
   | streamErr (l p : NodeId)
+  | streamClosed (l p : NodeId)
   | logFlushed (n : NodeId)
   | applyCompleted (n : NodeId) (i : Nat)
   | crash (n : NodeId) (k : Nat)
@@ -454,10 +499,9 @@ inductive Event
 deriving Repr
 
 /-- Leader round (noop at BecomeLeader, client write, heartbeat) with ghost bookkeeping. -/
-def leaderRound (c : Cluster) (i : NodeId) (nd : Node) (payloads : List Nat) : Cluster :=
-  let (nd', out, sid') := replicate i nd payloads c.cap c.nextSid
-  let newEs := nd'.log.drop nd.log.length
-  addMsgs { c with nodes := setNode c.nodes i nd', nextSid := sid', ghost := c.ghost ++ ghostOf nd.log newEs } out
+def leaderRound (c : Cluster) (i : NodeId) (nd : Node) (payload : Option Nat) : Cluster :=
+  let r := replicate i nd payload c.cap c.nextSid
+  addMsgs { c with nodes := setNode c.nodes i r.1, nextSid := r.2.2, ghost := c.ghost ++ ghostNew nd payload } r.2.1
 
 def stepTick (c : Cluster) (i : NodeId) : Cluster × List String :=
   let nd := c.nodes i
@@ -467,7 +511,7 @@ def stepTick (c : Cluster) (i : NodeId) : Cluster × List String :=
     | .candidate =>
       if c.n == 1 then (c, ["tick:single"])
       else ({ c with nodes := setNode c.nodes i (startElection i nd) }, ["tick:candidate"])
-    | .leader => (leaderRound c i nd [], ["tick:leader"])
+    | .leader => (leaderRound c i nd none, ["tick:leader"])
 
 def stepVoteReq (c : Cluster) (cand p : NodeId) : Cluster × List String :=
   let cn := c.nodes cand
@@ -495,6 +539,11 @@ def stepVoteResp (c : Cluster) (cand p : NodeId) : Cluster × List String :=
     | none => (c, ["vr:disabled"])
   | none => (c, ["vr:disabled"])
 
+/-- raft.rs `BecomeLeader`: role, committed self-vote, `init_peers_next_index_and_match_index` -/
+def asLeader (me nNodes : Nat) (nd : Node) : Node :=
+  { nd with election := none, role := .leader, vote := some ⟨me, nd.term, true⟩,
+            peers := initPeers me nNodes (lastIndex nd.log) }
+
 def stepVoteEnd (c : Cluster) (i : NodeId) : Cluster × List String :=
   let nd := c.nodes i
   match nd.election with
@@ -504,9 +553,7 @@ def stepVoteEnd (c : Cluster) (i : NodeId) : Cluster × List String :=
       let nd0 := { nd with election := none }
       match tally c.n el.req el.collected 1 with
       | .won =>
-        let nd1 := { nd0 with role := .leader, vote := some ⟨i, nd0.term, true⟩, peers := initPeers i c.n (lastIndex nd0.log) }
-        let c1 := leaderRound { c with leaderTerms := (nd0.term, i) :: c.leaderTerms } i nd1 [0]
-        (c1, ["ve:won"])
+        (leaderRound { c with leaderTerms := (nd.term, i) :: c.leaderTerms } i (asLeader i c.n nd) (some 0), ["ve:won"])
       | .higherTerm t => ({ c with nodes := setNode c.nodes i (becomeFollower { nd0 with term := t }) }, ["ve:higher-term"])
       | .logConflict => ({ c with nodes := setNode c.nodes i nd0 }, ["ve:log-conflict"])
       | .noQuorum => ({ c with nodes := setNode c.nodes i nd0 }, ["ve:no-quorum"])
@@ -515,7 +562,11 @@ def stepVoteEnd (c : Cluster) (i : NodeId) : Cluster × List String :=
 def stepWrite (c : Cluster) (i : NodeId) (x : Nat) : Cluster × List String :=
   let nd := c.nodes i
   if !(c.valid i && nd.ready) then (c, ["w:disabled"])
-  else if nd.role == .leader then (leaderRound c i nd [x + 1], ["w:leader"])
+  else if nd.role == .leader then
+    let c1 := leaderRound c i nd (some (x + 1))
+    let nd1 := c1.nodes i
+    ({ c1 with nodes := setNode c1.nodes i { nd1 with pendingWrites := nd1.pendingWrites ++ [(lastIndex nd.log + 1, x)] } },
+     ["w:leader"])
   else (c, ["w:not-leader"])
 
 /-- is the replication stream `sid` from leader `l` to peer `p` still open at the leader? -/
@@ -525,6 +576,12 @@ def streamOpen (c : Cluster) (l p sid : Nat) : Bool :=
     match findPeer ln.peers p with
     | some q => q.st == .opened && q.sid == sid
     | none => false
+
+/-- ghost: remember what a leader's commit index covers whenever it advanced past `before` -/
+def recordCommit (c : Cluster) (i : NodeId) (before : Nat) : Cluster :=
+  if (c.nodes i).role == .leader && (c.nodes i).commit > before then
+    { c with commits := ((c.nodes i).term, (c.nodes i).log.filter (fun e => e.index ≤ (c.nodes i).commit)) :: c.commits }
+  else c
 
 def stepDeliverAe (c : Cluster) (m : Nat) : Cluster × List String :=
   match findMsg c m with
@@ -548,7 +605,7 @@ def stepDeliverResp (c : Cluster) (m : Nat) : Cluster × List String :=
     else if !(streamOpen c1 dst src sid) then (c1, ["r:stream-closed"])
     else
       let (nd', tag) := onAppendResponse nd src rterm res
-      ({ c1 with nodes := setNode c1.nodes dst nd' }, [tag])
+      (recordCommit { c1 with nodes := setNode c1.nodes dst nd' } dst nd.commit, [tag])
   | _ => (c, ["r:disabled"])
 
 def stepDup (c : Cluster) (m : Nat) : Cluster × List String :=
@@ -571,6 +628,36 @@ def stepStreamErr (c : Cluster) (l p : NodeId) : Cluster × List String :=
         ({ c with msgs := msgs, nodes := setNode c.nodes l (onStreamError ln p) }, ["se:ok"])
     | none => (c, ["se:disabled"])
 
+/-- the transport end of the request channel goes away; the leader notices at its next send -/
+def stepStreamClosed (c : Cluster) (l p : NodeId) : Cluster × List String :=
+  let ln := c.nodes l
+  if !(c.valid l && ln.ready && ln.role == .leader) then (c, ["sc:disabled"])
+  else match findPeer ln.peers p with
+    | some q =>
+      if q.st != .opened then (c, ["sc:disabled"])
+      else
+        let msgs := (c.msgs.filter fun x => match x.2 with
+          | .resp _ _ sid _ _ => sid != q.sid
+          | _ => true).map fun x => match x.2 with
+          | .ae s d sid r _ => if sid == q.sid then (x.1, Msg.ae s d sid r false) else x
+          | _ => x
+        ({ c with msgs := msgs,
+                  nodes := setNode c.nodes l { ln with peers := updatePeer ln.peers p fun q => { q with st := .dead } } },
+         ["sc:ok"])
+    | none => (c, ["sc:disabled"])
+
+/-- `InternalEvent::ApplyCompleted { last_index = k, results = success for 1..=k }` (the harness plays the state machine
+    worker; it only reports indexes that are committed at the node): the leader answers the waiting clients. -/
+def stepApplyCompleted (c : Cluster) (i : NodeId) (k : Nat) : Cluster × List String :=
+  let nd := c.nodes i
+  if !(c.valid i && nd.ready && k ≤ nd.commit) then (c, ["ac:disabled"])
+  else if nd.role == .leader then
+    let done := nd.pendingApply.filter (fun w => w.1 ≤ k)
+    ({ c with nodes := setNode c.nodes i { nd with pendingApply := nd.pendingApply.filter (fun w => w.1 > k) },
+              acked := c.acked ++ done.map (fun w => (⟨w.1, nd.term, w.2 + 1⟩, nd.term)) },
+     [if done.isEmpty then "ac:nothing" else "ac:acked"])
+  else (c, ["ac:non-leader"])
+
 def stepLogFlushed (c : Cluster) (i : NodeId) : Cluster × List String :=
   let nd := c.nodes i
   if !(c.valid i && nd.ready) then (c, ["lf:disabled"])
@@ -579,21 +666,22 @@ def stepLogFlushed (c : Cluster) (i : NodeId) : Cluster × List String :=
     let nd1 := { nd with floor := last }
     if last > nd.durable then
       let (nd2, tag) := onLogFlushed { nd1 with durable := last }
-      ({ c with nodes := setNode c.nodes i nd2 }, [tag])
+      (recordCommit { c with nodes := setNode c.nodes i nd2 } i nd.commit, [tag])
     else ({ c with nodes := setNode c.nodes i nd1 }, ["lf:nothing-new"])
 
-/-- crash: the store keeps what was written; the last `k` plain appends (above `floor`) may be missing; the hard
-    state is whatever the last graceful stop saved.  stop: everything written, `Drop` saves (term, vote). -/
+/-- crash: the store keeps what was written; the last `k` plain appends (above `floor`) may be missing; term and
+    vote were saved when they last changed.  stop: everything written. -/
 def downNode (nd : Node) (lose : Option Nat) : Node :=
   let last := lastIndex nd.log
   match lose with
   | some k =>
     let keep := last - min k (last - nd.floor)
     { nd with up := false, role := .follower, peers := [], election := none, commit := 0,
-              log := nd.log.filter (fun e => e.index ≤ keep), floor := keep, durable := keep }
+              log := nd.log.filter (fun e => e.index ≤ keep), floor := keep, durable := keep,
+              hard := some (nd.term, nd.vote), pendingWrites := [], pendingApply := [] }
   | none =>
     { nd with up := false, role := .follower, peers := [], election := none, commit := 0,
-              floor := last, durable := last, hard := some (nd.term, nd.vote) }
+              floor := last, durable := last, hard := some (nd.term, nd.vote), pendingWrites := [], pendingApply := [] }
 
 def stepDown' (c : Cluster) (i : NodeId) (lose : Option Nat) : Cluster × List String :=
   let nd := c.nodes i
@@ -606,7 +694,7 @@ def stepStart (c : Cluster) (i : NodeId) : Cluster × List String :=
   if !(c.valid i && !nd.up) then (c, ["up:disabled"])
   else
     let (t, v) := nd.hard.getD (1, none)
-    ({ c with nodes := setNode c.nodes i { nd with up := true, term := t, vote := v } }, ["up:ok"])
+    ({ c with nodes := setNode c.nodes i { nd with up := true, role := .follower, term := t, vote := v, pendingWrites := [], pendingApply := [] } }, ["up:ok"])
 
 def step (c : Cluster) : Event → Cluster × List String
   | .tick i => stepTick c i
@@ -619,8 +707,9 @@ def step (c : Cluster) : Event → Cluster × List String
   | .drop m => (removeMsg c m, ["d"])
   | .dup m => stepDup c m
   | .streamErr l p => stepStreamErr c l p
+  | .streamClosed l p => stepStreamClosed c l p
   | .logFlushed i => stepLogFlushed c i
-  | .applyCompleted _ _ => (c, ["ac"])
+  | .applyCompleted i k => stepApplyCompleted c i k
   | .crash i k => stepDown' c i (some k)
   | .stop i => stepDown' c i none
   | .start i => stepStart c i
